@@ -105,14 +105,18 @@ fn main() {
     let scratch = PathBuf::from(format!("/verif/target/scratch/{}", std::process::id()));
     let ctx = Ctx { id: id.clone(), tier, seed, threads, repo_bin, scratch, strict };
     let _ = std::fs::create_dir_all(&ctx.scratch);
-    // checks that only call library code in-process have millisecond cases; the others run the
-    // binary under its own CPU limits (up to 120 s + 480 s on a re-run)
-    let in_process_only = matches!(id.as_str(), "C06" | "C07" | "C09" | "C12" | "C13" | "C14" | "C15" | "C16" | "C18");
-    let case_limit = std::env::var("VERIF_CASE_LIMIT_S")
-        .ok()
-        .and_then(|s| s.parse::<u64>().ok())
-        .unwrap_or(if in_process_only { 150 } else { 900 });
-    engine::start_watchdog(&ctx.id, std::time::Duration::from_secs(case_limit), ctx.seed, ctx.tier);
+    // cases that only call library code in-process take milliseconds; a case that starts the binary
+    // runs under that binary's CPU limits (up to 120 s + 480 s on a re-run in the thorough tier)
+    let env_s = |k: &str, d: u64| std::env::var(k).ok().and_then(|s| s.parse::<u64>().ok()).unwrap_or(d);
+    let in_process_limit = env_s("VERIF_CASE_LIMIT_S", 150);
+    let binary_limit = env_s("VERIF_BINARY_CASE_LIMIT_S", 900).max(in_process_limit);
+    engine::start_watchdog(
+        &ctx.id,
+        std::time::Duration::from_secs(in_process_limit),
+        std::time::Duration::from_secs(binary_limit),
+        ctx.seed,
+        ctx.tier,
+    );
     // Budgets (see engine.rs): the quick tier stops starting new cases after 600 s (its runs take
     // one to two minutes on the unchanged tree) and spends at most 180 s in shrink candidates; the
     // thorough tier has no deadline and an hour of shrinking.  Replays are never budgeted.
